@@ -28,9 +28,19 @@ func guardedCall(f func()) (panicked bool) {
 	return false
 }
 
+// usedBefore: the state instance may already have served another quote character
+// ("for every quote-handling state ... and every quote character" holds for one
+// instance used with several characters in turn).
+func usedBefore(st tokenizers.IQuoteState, q0 rune) {
+	if vChoice("used-before", 2) == 1 {
+		guardedCall(func() { _ = st.DecodeString(st.EncodeString("a", q0), q0) })
+	}
+}
+
 // H_C14_roundtrip: Decode(Encode(s, q), q) == s for every string and quote character.
 func H_C14_roundtrip() {
 	st := quoteStateOf(vChoice("state", 3))
+	usedBefore(st, vRune("q0"))
 	s := string(symInputUpTo())
 	q := vRune("q")
 	var dec string
@@ -67,6 +77,7 @@ func H_C14_stream() {
 		quotes = []rune{'"', '|', '«'}
 	}
 	q := quotes[vChoice("q", len(quotes))]
+	usedBefore(t.QuoteState(), quotes[vChoice("q0", len(quotes))])
 	s := string(symInputUpTo())
 	enc := t.QuoteState().EncodeString(s, q)
 	input := []rune(enc)
